@@ -84,6 +84,8 @@ def _gen_comp(rng):
         c = {"kind": kind, "step": rng.choice([1, 2, 3, 4, 5, 7]) * unit}
         if kind == "step":
             c["sp"] = rng.choice(STEP_PARAMS)
+        if kind == "sum" and rng.random() < 0.4:
+            c["pt"] = False
         cons.append(c)
     steps = rng.randint(3, 9)
     end = max(c["step"] for c in cons) * rng.choice([1, 2, 3]) + s * unit * rng.randint(0, steps)
@@ -123,6 +125,10 @@ def _corpus():
     cs.append(_simple("sum", "flexmask", 48))
     # tests/core/test_sdk.py::test_memory_limit-like: limit crossed mid run
     cs.append(_simple("direct", "grid", 2 * 48, src=1, dst=5, end=15))
+    # F9 (found by this check): SumOverTime(per_time=True) reloads spilled entries with its OUTPUT units
+    cs.append(_simple("sum", "scalar", 0, src=1, dst=2, end=3))
+    cs.append({"payload": "grid", "src_step": 10**6, "end": 6 * 10**6, "limit": 48,
+               "consumers": [{"kind": "sum", "step": 3 * 10**6, "pt": False}]})
     cs.append({"payload": "scalar", "src_step": 10**6, "end": 12 * 10**6, "limit": 16,
                "consumers": [{"kind": "direct", "step": 4 * 10**6}, {"kind": "avg", "step": 6 * 10**6}]})
     cs.append({"payload": "grid", "src_step": 10**6, "end": 12 * 10**6, "limit": None, "own": {"0": 48, "1": 0},
@@ -163,6 +169,8 @@ def generate(rng, tier):
 # ----------------------------------------------------------------------------
 def _digest(q):
     """Exact, canonical description of a delivered quantity (bit pattern, mask, units)."""
+    if isinstance(q, str):
+        return ["raw", "str", "file-name"]
     try:
         units = str(q.units)
         m = q.magnitude
@@ -205,7 +213,7 @@ def _make_adapter(c):
     if k == "avg":
         return fm.adapters.AvgOverTime()
     if k == "sum":
-        return fm.adapters.SumOverTime()
+        return fm.adapters.SumOverTime(per_time=bool(c.get("pt", True)))
     raise ValueError(k)
 
 
@@ -246,7 +254,10 @@ def _run_once(case, limit, loc, instrument):
         def cb(inp, t, i=i):
             received.append([i, us_of(t), _digest(inp["In"])])
             return {}
-        comps.append(fm.components.CallbackComponent({"In": fm.Info(None, **kw)}, {}, cb, T(0), D(c["step"])).with_name(f"C{i}"))
+        ckw = dict(kw)
+        if c["kind"] == "sum" and c.get("pt", True):
+            ckw["units"] = None  # SumOverTime(per_time=True) delivers [units * s]
+        comps.append(fm.components.CallbackComponent({"In": fm.Info(None, **ckw)}, {}, cb, T(0), D(c["step"])).with_name(f"C{i}"))
 
     comp = fm.Composition(comps, print_log=False, slot_memory_limit=limit, slot_memory_location=loc)
     out = src.outputs["Out"]
@@ -305,7 +316,7 @@ def _run_once(case, limit, loc, instrument):
             if isinstance(r, str):
                 by_file[os.path.basename(r)] = idx
                 orig[os.path.basename(r)] = (np.ma.copy(data.magnitude) if np.ma.isMaskedArray(data.magnitude)
-                                             else np.array(data.magnitude, copy=True))
+                                             else np.array(data.magnitude, copy=True), str(data.units))
                 if os.path.dirname(os.path.abspath(r)) != os.path.abspath(loc):
                     roundtrip_bad.append(["outside", si, idx])
             else:
@@ -321,7 +332,7 @@ def _run_once(case, limit, loc, instrument):
                 idx = by_file.get(os.path.basename(where), 4999)
                 o = orig.get(os.path.basename(where))
                 try:
-                    if o is None or not _same_payload(o, r.magnitude):
+                    if o is None or not _same_payload(o[0], r.magnitude) or str(r.units) != o[1]:
                         roundtrip_bad.append(["roundtrip", si, idx])
                 except Exception:  # noqa
                     roundtrip_bad.append(["roundtrip", si, idx])
@@ -421,6 +432,12 @@ def run_impl(case):
 # ----------------------------------------------------------------------------
 # Gallina emitter
 # ----------------------------------------------------------------------------
+def _expected_limits(case, nslots):
+    """Composition(slot_memory_limit=...) applies to every slot the user did not configure (schedule.py 151-155, 193-197)."""
+    own = case.get("own") or {}
+    return [own[str(si)] if str(si) in own else case["limit"] for si in range(nslots)]
+
+
 def _kind_term(kind, case, si):
     if kind == "output":
         return "KOutput"
@@ -449,18 +466,18 @@ def _slot_terms(case, obs, si):
             ops.append("Finalize")
             res.append(P(P(L(B(x) for x in ev[1]), L(N(k) for k in ev[2])), NONE))
     nkeys = len(case["consumers"]) if si == 0 else 1
-    limit = lim["limits"][si]
+    limit = _expected_limits(case, len(lim["events"]))[si]  # what the user configured, not what the slot ended up with
     sc = P(P(_kind_term(lim["kinds"][si], case, si), NONE if limit is None else Some(Z(limit)), L(N(i) for i in range(nkeys))),
            "(" + L(ops) + " : list (op nat nat))")
     return sc, L(res)
 
 
 def coq_case(case, obs):
-    return L(_slot_terms(case, obs, si)[0] for si in range(len(obs["lim"]["events"])))
+    return "(" + L(_slot_terms(case, obs, si)[0] for si in range(len(obs["lim"]["events"]))) + " : c10_case)"
 
 
 def coq_obs(case, obs):
-    return L(_slot_terms(case, obs, si)[1] for si in range(len(obs["lim"]["events"])))
+    return "(" + L(_slot_terms(case, obs, si)[1] for si in range(len(obs["lim"]["events"]))) + " : c10_obs)"
 
 
 # ----------------------------------------------------------------------------
@@ -469,7 +486,8 @@ def coq_obs(case, obs):
 def monitor(case, obs):
     lim, ref = obs["lim"], obs["ref"]
     if ref["error"] is not None:
-        return None  # outside the property's domain: the composition does not run even without a limit
+        # every generated composition is valid: a failing reference run must never pass silently
+        return f"the composition does not run even without a memory limit: {ref['error']}"
     if lim["error"] is not None:
         return f"run with limit {case['limit']} raised {lim['error']}; the run without a limit completed"
     if lim["received"] != ref["received"]:
@@ -483,6 +501,9 @@ def monitor(case, obs):
                 if a != b:
                     return f"slot {si} ({lim['kinds'][si]}) delivered {a[1]} at t={a[0]} with the limit, {b[1]} at t={b[0]} without"
             return f"slot {si} delivered {len(da)} values with the limit, {len(db)} without"
+    want = _expected_limits(case, len(lim["events"]))
+    if lim["limits"] != want:
+        return f"slots run with memory limits {lim['limits']}, configured: {want}"
     if lim["bad"]:
         b = lim["bad"][0]
         if b[0] == "outside":
@@ -497,7 +518,62 @@ def monitor(case, obs):
     for si, evs in enumerate(lim["events"]):
         if evs[-1][1]:
             return f"slot {si} still buffers {len(evs[-1][1])} entries after finalize"
+    return _limit_semantics(lim)
+
+
+def _limit_semantics(lim):
+    """The limit means what it says: a payload is written to disk iff keeping it would push the bytes the
+    slot holds in RAM above the limit (evaluated on the implementation's own trace)."""
+    for si, evs in enumerate(lim["events"]):
+        limit = lim["limits"][si]
+        sizes, before = [], []
+        for ev in evs:
+            if ev[0] == "push":
+                held = sizes[len(sizes) - len(before):] if before else []
+                ram = sum(z for z, sp in zip(held, before) if not sp)
+                want = limit is not None and 0 <= limit < ram + ev[2]
+                got = ev[3][-1] if ev[3] else None
+                if got is not want:
+                    return (f"slot {si} ({lim['kinds'][si]}), limit {limit}: publication {len(sizes)} of {ev[2]} bytes was "
+                            f"{'spilled' if got else 'kept in RAM'} while {ram} bytes were held in RAM")
+                sizes.append(ev[2])
+                before = ev[3]
+            else:
+                before = ev[4] if ev[0] == "pull" else ev[1]
     return None
+
+
+def _slot_consumer(case, si):
+    """the consumer spec whose adapter is slot si (si >= 1)"""
+    ads = [c for c in case["consumers"] if c["kind"] != "direct"]
+    return ads[si - 1] if 1 <= si <= len(ads) else None
+
+
+def _sum_per_time_spilled_units(case, obs, failure):
+    """F9: a SumOverTime(per_time=True) adapter that spilled at least one entry; reloaded entries get the
+    adapter's OUTPUT units (input units * s) instead of the units they were buffered with."""
+    lim = obs.get("lim") if isinstance(obs, dict) else None
+    if not lim or "events" not in lim:
+        return False
+    for si, evs in enumerate(lim["events"]):
+        c = _slot_consumer(case, si)
+        if c and c["kind"] == "sum" and c.get("pt", True):
+            if any(ev[0] == "push" and ev[3] and ev[3][-1] for ev in evs):
+                return True
+    return False
+
+
+def _has_kind(kinds):
+    return lambda case, obs, failure: any(c["kind"] in kinds for c in case["consumers"])
+
+
+classifiers = {
+    "sum_per_time_spilled_units": _sum_per_time_spilled_units,
+    # classifiers of the repaired findings (status "fixed" entries suppress nothing)
+    "single_entry_spilled_linear_step": _has_kind(["linear", "step"]),
+    "adapter_spill_files_left": _has_kind(ADAPTERS),
+    "masked_payload_spill": lambda case, obs, failure: case["payload"] in ("masked", "flexmask"),
+}
 
 
 def _patterns(obs):
